@@ -266,7 +266,7 @@ def v6(ctx, rep, T, be, fns):
         for l in g['loops']:
             if l.get('ctl') and any(fr.get('k') == 'for' and 'variants' in vt.show(fr.get('over')) for fr in l.get('guard', [])):
                 rep.fail('V6', f"{be}:{g['name']}:variant-loop-ctl", f"{be}: {g['qual']} has `{l['ctl']}` inside the variant loop — a variant can be skipped", {'file': g['file'], 'line': l['line']})
-        for m in g['matches']:
+        for m_i, m in enumerate(g['matches']):
             vs = [v for a in m['arms'] for v in a['variants']]
             if any(v.startswith('RustEnumVariant::') for v in vs) and g['name'].startswith(('write_', 'generate')):
                 in_unit = any(fr.get('k') == 'arm' and 'RustEnum::Unit' in fr.get('variants', []) for fr in m['guard'])
@@ -278,5 +278,5 @@ def v6(ctx, rep, T, be, fns):
                     if all(a.get('diverges') or 'None' in a['body'] for a in wild) and be != 'x' and any('None' in a['body'] or 'unreachable' in a['body'] for a in wild):
                         # filter_map helper (anonymous-struct extraction) or unreachable arm
                         continue
-                rep.check(not missing, 'V6', f"{be}:{g['name']}:variant-arms:{m['line'] - g['line']}", 'one arm per RustEnumVariant constructor', f"{be}: {g['qual']} has no arm for {missing} — those variants get no case on the foreign side", {'file': g['file'], 'line': m['line']})
+                rep.check(not missing, 'V6', f"{be}:{g['name']}:variant-arms:#{m_i}", 'one arm per RustEnumVariant constructor', f"{be}: {g['qual']} has no arm for {missing} — those variants get no case on the foreign side", {'file': g['file'], 'line': m['line']})
     rep.check(loops >= 2, 'V6', f'{be}:variant-loops-found', f'{loops} variant loops', f'{be}: expected a unit and an algebraic variant loop, found {loops}', {'file': emit.BACKENDS[be][1], 'line': 0})
